@@ -221,9 +221,10 @@ func init() { vsymHarnesses["VsymC04"] = VsymC04 }
 // separators of the identity is not part of any value.
 func VsymC04Values() {
 	leaf := &x509.Certificate{}
-	leafO := []string{"Acme Corp", "Acme  Corp", "acme"}[vr.Choice("leafO", 3)]
+	leafO := []string{"Acme Corp", "Acme  Corp", "acme", "Acme", "Acme:East"}[vr.Choice("leafO", 5)]
 	leaf.Subject = pkix.Name{Country: []string{"US"}, Province: []string{"WA"}, Organization: []string{leafO}}
-	idO := []string{"Acme Corp", "Acme  Corp", "Acme Corp ", " Acme Corp", "Acme\tCorp", "AcmeCorp", "acme corp", "Acme Cor", "acme", "ACME"}[vr.Choice("identityO", 10)]
+	idO := []string{"Acme Corp", "Acme  Corp", "Acme Corp ", " Acme Corp", "Acme\tCorp", "AcmeCorp", "acme corp", "Acme Cor", "acme", "ACME",
+		"Acme", "Acme:East", "Acme:West", "Acme:"}[vr.Choice("identityO", 14)] // a colon is an ordinary character of a value
 	sep := []string{",", ", ", " , "}[vr.Choice("separator", 3)]
 	// leading / trailing blanks of a value are written escaped, as RFC 4514 requires
 	esc := idO
